@@ -81,6 +81,14 @@ type Pop struct {
 	V       *Val     `json:"v,omitempty"`       // field: nil = not populated
 	Items   []*Pop   `json:"items,omitempty"`   // component
 	Entries [][]*Pop `json:"entries,omitempty"` // group
+	// Build: how the application assembles this component / group (see build.Fill):
+	// component 0 = populated in place, 1 = a fresh component populated and then put
+	// into its slot with Set, 2 = put into its slot first and populated afterwards;
+	// group 0 = entries made from explicit items, populated, then added; 1 = entry
+	// component added first (AddEntry(entry.Items())) and populated afterwards through
+	// the entry; 2 = entries made from Group.AsTemplate(), populated, then added;
+	// +4 = the group object itself is a fresh one put into its slot with Set.
+	Build int `json:"build,omitempty"`
 }
 
 // Case is a template with a population.
